@@ -11,7 +11,9 @@
      HostAbsent / HostStep / RouteStep / DefaultStep (Routing!Next) run get_handler / call_websocket_handler;
      TrCompare   compares the handler the real app used with the dispatcher's result AND with the property's
                  definition Expected (Route / WsRoute).
-   Records that disagree are collected in `bad`; AllAgree fails at the last state and prints them. *)
+   Records that disagree are collected in `bad` (with the handler the property names); AllAgree fails at the end
+   and prints them. The driver reports a rejected record as a violation when app and request lie inside the
+   property's quantifier, and as drift of the specification when they lie outside it (see checks/c04.py). *)
 EXTENDS Routing, Json, IOUtils
 
 Rec == ndJsonDeserialize(IOEnv.TRACE)
@@ -49,7 +51,7 @@ NoReq == [kind |-> "http", hostp |-> FALSE, host |-> <<>>, target |-> <<>>, othe
 
 TrInit == /\ app = NewApp /\ req = NoReq /\ pc = "idle" /\ hi = 0 /\ ri = 0 /\ res = Miss
           /\ l = 1 /\ bad = <<>> /\ stats = [i \in 1..7 |-> 0]
-          /\ TLCSet(1, <<0>>) /\ TLCSet(2, <<>>)    \* "log not consumed" until TrFinish overwrites it
+          /\ TLCSet(1, <<[line |-> 0, exp |-> Miss]>>) /\ TLCSet(2, <<>>)    \* "log not consumed" until TrFinish overwrites it
 
 TrRegister == /\ pc = "idle" /\ l <= Len(Rec) /\ Rec[l].t = "app"
               /\ app' = FoldApp(NewApp, Rec[l].ops)
@@ -65,7 +67,8 @@ TrRequest == /\ pc = "idle" /\ l <= Len(Rec) /\ Rec[l].t = "req"
 TrDispatch == Next /\ UNCHANGED tvars
 
 TrCompare == /\ pc = "done"
-             /\ bad' = IF (Rec[l].got = res /\ res = Expected(app, req)) \/ Len(bad) >= 20 THEN bad ELSE Append(bad, l)
+             /\ bad' = IF (Rec[l].got = res /\ res = Expected(app, req)) \/ Len(bad) >= 300 THEN bad
+                        ELSE Append(bad, [line |-> l, exp |-> Expected(app, req)])
              /\ stats' = LET c == Class(app, req) IN
                           [i \in 1..7 |-> stats[i] + (IF i = c[1] + 1 \/ (i = 6 /\ c[2] = 1) \/ (i = 7 /\ c[3] = 1) THEN 1 ELSE 0)]
              /\ l' = l + 1 /\ pc' = "idle"
@@ -83,7 +86,8 @@ TrSpec == TrInit /\ [][TrNext]_<<vars, tvars>>
 \* POSTCONDITION: the whole log was consumed and no record disagreed
 AllAgree == LET b == TLCGet(1) IN
               \/ b = <<>> /\ PrintT(ToJson([classes |-> TLCGet(2)]))
-              \/ PrintT(ToJson([rejected |-> [i \in 1..Len(b) |-> [line |-> b[i], rec |-> IF b[i] = 0 THEN Rec[1] ELSE Rec[b[i]]]]])) /\ FALSE
+              \/ PrintT(ToJson([rejected |-> [i \in 1..Len(b) |->
+                        [line |-> b[i].line, exp |-> b[i].exp, rec |-> IF b[i].line = 0 THEN Rec[1] ELSE Rec[b[i].line]]]])) /\ FALSE
 Consumed == l <= Len(Rec) + 2
 
 =============================================================================
